@@ -826,6 +826,16 @@ impl Docs {
             let o = observe(store, plan.ns(d)).map_err(harness)?;
             cx.ev("observe", format!("d{d} entries={} heads={} peers={:?} cap={:?}", o.entries.len(), o.heads.len(), o.peers.as_ref().map(|p| p.len()), o.cap));
             let want_entries: Vec<Vec<u8>> = dm.doc.0.values().map(|e| postcard::to_stdvec(&e.signed()).unwrap()).collect();
+            {
+                // whatever the mode: the two access paths show the same entries
+                let (mut a, mut b) = (o.entries.clone(), o.by_key.clone());
+                a.sort();
+                b.sort();
+                if a != b && mode != Mode::Migrate {
+                    let class = match mode { Mode::Remove => "collateral/index", _ => "state/index" };
+                    return Err(Violation::new(class, format!("step {si}: d{d}: the author-ordered query returns {} entries, the key-ordered query {}", a.len(), b.len())));
+                }
+            }
             if plan.is_ghost(d) {
                 cx.probe("crafted_neighbour_observed");
                 if matches!(mode, Mode::Remove | Mode::Migrate) && (!o.entries.is_empty() || !o.by_key.is_empty() || !o.heads.is_empty()) {
